@@ -99,7 +99,7 @@ fn dispatch_events_per_event_body(&mut self, sources_at_lookup: &SourceList<'l, 
 //@ before <<let mut ret =>>
             // C09 ("...including when event processing returns an error"): the cell is reset BEFORE a processing
             // error can be propagated out of this body (defect F3, fixed in 0605ec0)
-            assert(reset_done); /*@props C09*/
+            assert(reset_done); /*@props C09,C15*/
 //@ after <<let mut ret =>>
             let ghost ret0 = ret;
 //@ after <<.pending_action .replace(PostAction::Continue)>>
